@@ -38,7 +38,9 @@ class OracleModule(ModInfo):
 def oracle_function(interp: Interp, name: str, src: str, globals_: Dict[str, Any]) -> FuncV:
     om = OracleModule(interp, name, src, globals_)
     v = om.get(name)
-    assert isinstance(v, FuncV), name
+    from .values import ClassV
+
+    assert isinstance(v, (FuncV, ClassV)), name
     return v
 
 
